@@ -62,6 +62,10 @@ SHAPES = {
     "known": ("", "<SLeaf><v>1</v></SLeaf>"),
     "knownTwice": ("", "<SLeaf><v>1</v></SLeaf><SLeaf><v>2</v></SLeaf>"),
     "knownThenX": ("", "<SLeaf><v>1</v></SLeaf><x>5</x>"),
+    "mixedTokens": ("", "<x>1 a 3</x>"),
+    "clarkBroken": ("", "<x>{urn:q</x>"),
+    "xsiClarkBroken": ("", f'<x {XSI} xsi:type="{{urn:q">5</x>'),
+    "clark": ("", "<x>{urn:q}n</x>"),
 }
 
 MODELS = dict(pm.SHAPE_MODELS)
@@ -69,6 +73,10 @@ MODELS["attrInt"] = dataclasses.make_dataclass(
     "KAttrInt", [("x", Optional[int], dataclasses.field(default=None, metadata={"type": "Attribute"}))])
 MODELS["wildcardOne"] = dataclasses.make_dataclass(
     "KWildcardOne", [("x", Optional[object], dataclasses.field(default=None, metadata={"type": "Wildcard", "namespace": "##any"}))])
+from xml.etree.ElementTree import QName as _QName
+
+MODELS["qname"] = dataclasses.make_dataclass(
+    "KQName", [("x", Optional[_QName], dataclasses.field(default=None, metadata={"type": "Element"}))])
 _WRAP: dict = {}
 
 
@@ -121,6 +129,57 @@ def show(o):
     return f"{type(o[1]).__name__}: {o[1]}"[:240] if o[0] == "exc" else repr(o[1])[:240]
 
 
+RAW = {"str": "abc", "enumStr": "blue", "ints": "5 6", "int": "5", "mixedTokens": "1 a 3", "parentAttrBad": "abc"}
+
+
+def _x_values(obj):
+    """The values of every field called x below obj."""
+    out = []
+    if dataclasses.is_dataclass(obj):
+        for f in dataclasses.fields(obj):
+            v = getattr(obj, f.name)
+            if f.name == "x":
+                out.append(v)
+            else:
+                out.extend(_x_values(v))
+    elif isinstance(obj, (list, tuple)):
+        for v in obj:
+            out.extend(_x_values(v))
+    return out
+
+
+def check_unconvertible(ctx, xctx, case, clazz, text):
+    """C10: kept as given with a ConverterWarning, or ParserError when conversion warnings are configured to fail."""
+    from xsdata.exceptions import ConverterWarning
+
+    raw = RAW[case["shape"]]
+    n = 0
+    for h in HANDLERS:
+        for strict in (False, True):
+            n += 1
+            ctx.case(("xml-unconvertible", case["kind"], case["shape"], case["pos"], strict, h))
+            cfg = ParserConfig(fail_on_converter_warnings=strict)
+            with warnings.catch_warnings(record=True) as caught:
+                warnings.simplefilter("always")
+                try:
+                    out = ("ok", XmlParser(context=xctx, handler=HANDLERS[h], config=cfg).from_string(text, clazz))
+                except Exception as ex:  # noqa: BLE001
+                    out = ("exc", ex)
+            nwarn = sum(1 for w in caught if issubclass(w.category, ConverterWarning))
+            info = {"kind": case["kind"], "shape": case["shape"], "position": case["pos"], "document": text, "handler": h, "strict": strict}
+            if strict:
+                if not (out[0] == "exc" and isinstance(out[1], ParserError)):
+                    ctx.violation(f"fail_on_converter_warnings: unconvertible {raw!r} for field kind {case['kind']} ({case['pos']}, {h}) did not fail with ParserError: {show(out)}", info)
+                continue
+            if out[0] != "ok" or nwarn < 1:
+                ctx.violation(f"unconvertible {raw!r} for field kind {case['kind']} ({case['pos']}, {h}): expected the value kept with a ConverterWarning, got {show(out)} with {nwarn} warning(s)", info)
+                continue
+            xs = _x_values(out[1])
+            if not xs or any(v != raw and v != [raw] for v in xs):
+                ctx.violation(f"unconvertible {raw!r} for field kind {case['kind']} ({case['pos']}, {h}) is not kept as given: {xs!r}", info)
+    return n
+
+
 def run_matrix(ctx, want: str):
     xctx = XmlContext()
     n = 0
@@ -169,6 +228,8 @@ def run_matrix(ctx, want: str):
                         ctx.violation(f"object parsed from canonical {kind} / {shape} ({pos}) does not survive the round trip ({wname} writer, {h} handler): {show(out)} -> {again} -> {show(back)}",
                                       dict(info, handler=h, writer=wname, serialized=again))
         elif want == "C10":
+            if case["unconvertible"]:
+                n += check_unconvertible(ctx, xctx, case, clazz, text)
             if not case["strictFail"]:
                 continue
             base_clazz, base_text = document(kind, "int", pos)
